@@ -55,9 +55,17 @@ pub enum K {
     Restamp,
 }
 
+pub struct Role {
+    pub name: &'static str,
+    pub weights: Vec<(K, u32)>,
+    pub ops: (u32, u32),
+}
+
 pub struct Profile {
     pub name: &'static str,
     pub weights: Vec<(K, u32)>,
+    /// if non-empty, thread t runs role `t % roles.len()` instead of the common weights
+    pub roles: Vec<Role>,
     pub threads: (u32, u32),
     pub ops: (u32, u32),
     pub nroots: usize,
@@ -140,6 +148,7 @@ pub struct T {
     iter: Option<(NewRcIter<VNode>, u32, u32)>,
     sh: Arc<Shared>,
     prof: Arc<Profile>,
+    role: Option<usize>,
     pub nops: u64,
     log: bool,
 }
@@ -156,8 +165,9 @@ fn l_add(c: &std::sync::atomic::AtomicI32, d: i32) {
 }
 
 impl T {
-    pub fn new(t: u32, seed: u64, sh: Arc<Shared>, prof: Arc<Profile>) -> T {
+    pub fn new(t: u32, seed: u64, sh: Arc<Shared>, prof: Arc<Profile>, role: Option<usize>) -> T {
         T {
+            role,
             t,
             rng: Rng::new(seed),
             rc: (0..NRC).map(|_| Rc::null()).collect(),
@@ -503,9 +513,16 @@ impl T {
     // ---- one step -----------------------------------------------------------------------------
     pub fn step(&mut self) {
         self.nops += 1;
-        let ws: Vec<u32> = self.prof.weights.iter().map(|x| x.1).collect();
+        // op boundary: lets the scheduler switch between ops that contain no yield point
+        sched::yield_hook(120);
+        let prof = self.prof.clone();
+        let table: &Vec<(K, u32)> = match self.role {
+            Some(r) => &prof.roles[r].weights,
+            None => &prof.weights,
+        };
+        let ws: Vec<u32> = table.iter().map(|x| x.1).collect();
         for _ in 0..12 {
-            let k = self.prof.weights[self.rng.weighted(&ws)].0;
+            let k = table[self.rng.weighted(&ws)].0;
             if self.try_op(k) {
                 sched::note(k as u64 + 0x100 * self.t as u64);
                 return;
